@@ -247,8 +247,13 @@ class Interp:
         return self
 
     def block(self, body):
-        for st in body:
-            self.stmt(st)
+        """Interpret a statement list; True if it certainly does not fall
+        through (return / raise on every folded path)."""
+        for i, st in enumerate(body):
+            if self.stmt(st):
+                self.dead += body[i + 1:]
+                return True
+        return False
 
     def _merge(self, a, b):
         out = dict(a)
@@ -360,25 +365,30 @@ class Interp:
             self.returns.append((st, self.obj_roots(st.value)
                                  if st.value is not None
                                  else frozenset(["fresh"])))
-            return
+            return True
         if isinstance(st, ast.If):
             self.scan_calls(st.test, st)
             t = eval_test(st.test, self.flags)
             if t is True:
                 self.dead += st.orelse
-                self.block(st.body)
-                return
+                return self.block(st.body)
             if t is False:
                 self.dead += st.body
-                self.block(st.orelse)
-                return
+                return self.block(st.orelse)
             env0 = dict(self.env)
-            self.block(st.body)
+            t1 = self.block(st.body)
             env1 = self.env
             self.env = dict(env0)
-            self.block(st.orelse)
+            t2 = self.block(st.orelse)
+            if t1 and t2:
+                return True
+            if t1:
+                return False          # only the else-environment survives
+            if t2:
+                self.env = env1
+                return False
             self.env = self._merge(env1, self.env)
-            return
+            return False
         if isinstance(st, (ast.For, ast.AsyncFor)):
             self.scan_calls(st.iter, st)
             it = st.iter
@@ -419,7 +429,7 @@ class Interp:
         if isinstance(st, ast.Raise):
             if st.exc is not None:
                 self.scan_calls(st.exc, st)
-            return
+            return True
         if isinstance(st, ast.Delete):
             for t in st.targets:
                 self.store(t, st, "store")
